@@ -149,6 +149,10 @@ def check(ctx):
     from rules import rows
     rows.r13_no_materialise(ctx, rule='R13r', min_level=2)
     helper_processors(ctx)
+    # results(), process() and datastream() of one Flow object give the same outcome only if each call evaluates the steps afresh:
+    # either _chain builds new helper processors on every call, or those helpers hold nothing a run uses up
+    from rules import independence as _ind
+    _ind.r34_one_shot(ctx, helpers_only=True)
     run.trusted += ['LF1 datapackage.Resource owns a private descriptor; Package.commit() snapshots',
                     'inspect.isfunction / inspect.signature / collections.abc.Iterable behave as documented']
     run.not_decided += ['behavioural equality of lazy and materialised evaluation over all step sequences and inputs '
